@@ -330,6 +330,56 @@ func runC07(w *fw.W) {
 		vs.finish(&r)
 		w.End(r)
 	}
+	// entry points REPL (multi-line block) and import of a module file: a raise in the middle ends that block / that
+	// import, every time
+	if w.Take() {
+		w.Begin("REPL block and module entry points", nil)
+		var vs violSet
+		n := 0
+		// REPL: a multi-line block is one program
+		for _, blk := range [][]string{
+			{"a := 1", "b := 10 / 0", "\"AFTER-RAISE\".p", "state := \"after\""},
+			{"\"F0\".p", "raise ValueErr.new(\"boom\")", "\"AFTER-RAISE\".p"},
+			{"x := [1, nosuch, \"AFTER-RAISE\".p]", "\"AFTER-RAISE\".p"},
+		} {
+			session := "state := \"before\"\nmulti\n" + strings.Join(blk, "\n") + "\n\nsingle\nstate\n"
+			var out bytes.Buffer
+			runscript.StartREPL("", strings.NewReader(session), &out)
+			n++
+			tr := out.String()
+			if strings.Contains(tr, "AFTER-RAISE") || strings.Contains(tr, `"after"`) || !strings.Contains(tr, `"before"`) {
+				vs.add("C07|repl-block|evaluation-continued-after-raise", fmt.Sprintf("REPL multi-line block %q: statements after the raise were evaluated; transcript: %s", blk, truncateMid(tr, 500)), session)
+			}
+		}
+		// a module whose top level raises part-way, imported / invited repeatedly
+		dir, err := os.MkdirTemp(os.Getenv("VERIF_TMP"), "c07mod")
+		if err != nil {
+			panic("C07 harness: " + err.Error())
+		}
+		os.WriteFile(filepath.Join(dir, "plugin.pangaea"), []byte("\"loading\".p\nname := 'plugin\nlimit := 10 / 0\nready := true\n\"LOADED-AFTER-RAISE\".p\n"), 0o644)
+		cwd, _ := os.Getwd()
+		rel, rerr := filepath.Rel(cwd, dir)
+		if rerr == nil {
+			if !strings.HasPrefix(rel, ".") {
+				rel = "./" + rel
+			}
+			for _, verb := range []string{"import", "invite!"} {
+				src := fmt.Sprintf("r1 := nil.try.{|u| %s(\"%s/plugin\")}\nr2 := nil.try.{|u| %s(\"%s/plugin\")}\nr3 := nil.try.{|u| %s(\"%s/plugin\")}\n[r1.err.type == ZeroDivisionErr, r2.err.type == ZeroDivisionErr, r3.err.type == ZeroDivisionErr]", verb, rel, verb, rel, verb, rel)
+				if ip == nil {
+					ip = interp.New()
+				}
+				o := ip.Run(src, interp.Options{})
+				n++
+				if !o.OK() || o.Inspect != "[true, true, true]" || o.Stdout != "loading\nloading\nloading\n" {
+					vs.add("C07|module|raise-in-module-not-delivered-every-time", fmt.Sprintf("%s of a module that raises part-way, three times in a row: got %s, stdout %q; every attempt raises ZeroDivisionErr after printing \"loading\"", verb, o.Outcome(), o.Stdout), src)
+				}
+			}
+		}
+		os.RemoveAll(dir)
+		r := fw.Result{Verdict: fw.Held, Evals: n, Counters: map[string]int{"entry_point_runs": n, "fault_cases": n, "raise_marker_observed": n}, DKeys: []string{"repl-block", "module"}}
+		vs.finish(&r)
+		w.End(r)
+	}
 	handlers := []string{"none", "try", "thoughtful"}
 	raisers := []struct{ fn, kind, msg string }{{"R", "ValueErr", "boom%d"}, {"RZ", "ZeroDivisionErr", "cannot be divided by 0"}, {"RS", "StopIterErr", "boom%d"}}
 	for _, t := range all {
